@@ -3,6 +3,8 @@ sys.path.insert(0, '/verif')
 from models.holpy import make_world, conformance
 from pyvc.verify import verify_function, verify_lemma
 w = make_world()
+import os
+w.uf_mul = bool(os.environ.get("UF_MUL"))
 print('conformance:', conformance(w))
 for m in sys.argv[1].split(','):
     (w.load_specs if m.startswith('spec') else w.load_contracts)(m)
@@ -14,6 +16,9 @@ for q in targets:
     j = r.to_json()
     print('%-50s %-12s paths=%d normal=%d obl=%d ok=%d  %.2fs  %s' % (q, j['status'], j['paths'], j['normal_paths'], j['obligations'], j['discharged'], j['secs'], j['message'][:3000]))
     for f in j['failed'][:3]:
-        print('   FAILED', f['label'], f['path'], json.dumps(f['model'])[:700])
+        print("   FAILED", f["label"], f["path"], json.dumps(f["model"])[:700], "CLAIM", f.get("claim"))
     for f in j['unknown'][:3]:
         print('   UNKNOWN', f['label'], f['path'], f['detail'])
+    for o in r.obligations:
+        if o['secs'] > 1.5:
+            print('   SLOW %.1fs %s %s' % (o['secs'], o['label'], o['path'][-12:]))
